@@ -88,6 +88,23 @@ def gen_cases(seed, tier):
                 for ordered in (0, 1):
                     c["finds"].append(dict(index=iname, ordered=ordered, key=pr))
         cases.append(c)
+    # insertion orders made of already-sorted runs whose drops fall on round positions (512, 1024, 2048, 4096):
+    # a sort (or a sortedness test) that works by blocks must still order the whole store
+    for run in ([1024, 512] if tier == "quick" else [256, 512, 1000, 1024, 2048, 4096]):
+        nruns = 2 if run >= 2048 else 3
+        keys = []
+        for r in range(nruns):
+            base = (nruns - r) * 10 * run                      # each run is sorted and lies below the previous one
+            keys += [base + 3 * j for j in range(run)]
+        keys += [5]                                            # and one stray key at the end
+        c = dict(id="s%d" % len(cases), stores=["plain", "plain"], variant_order=[], finds=[],
+                 props=[dict(variant=None, kind="u", name="k"), dict(variant=None, kind="u", name="v")], sort=["k"],
+                 entries=[dict(variant=None, values={"k": ("u", k), "v": ("u", j)}) for j, k in enumerate(keys)],
+                 indexes=[("all", 0, len(keys))])
+        for k in rng.sample(keys, 12) + [keys[0], keys[run - 1], keys[run], keys[-1], keys[run] + 1]:
+            for ordered in (0, 1):
+                c["finds"].append(dict(index="all", ordered=ordered, key=[("k", ("u", k))]))
+        cases.append(c)
     # exhaustive: all strictly sorted key sequences of length <= 4 over a 3-letter alphabet of 1-2 byte strings
     alpha = [b"", b"\x00", b"a", b"a\x00", b"ab", b"\xff"]
     maxlen = 3 if tier == "quick" else 4
